@@ -161,6 +161,7 @@ struct Agg {
     codes: BTreeMap<u64, (String, u64)>, // code hash -> (code, run index)
     suspects: Vec<(u64, String)>,   // run index, "stalled"/"crashed"
     ops_total: u64,
+    harness: Vec<String>,
 }
 
 fn spawn_worker(property: &str, tier: &str, mask: Option<&str>) -> Child {
@@ -210,6 +211,7 @@ pub fn run_batch(cfg: &CheckCfg, indices: Vec<u64>) -> (AggOut, Vec<(u64, String
         codes: BTreeMap::new(),
         suspects: vec![],
         ops_total: 0,
+        harness: vec![],
     }));
     let queue = Arc::new(Mutex::new(indices.into_iter().rev().collect::<Vec<u64>>()));
     let stall_limit = Duration::from_secs(std::env::var("SIM_STALL_SECS").ok().and_then(|s| s.parse().ok()).unwrap_or(20));
@@ -269,6 +271,10 @@ pub fn run_batch(cfg: &CheckCfg, indices: Vec<u64>) -> (AggOut, Vec<(u64, String
                     }
                     if line.starts_with("B ") {
                         slot.lock().unwrap().since = Instant::now();
+                        continue;
+                    }
+                    if line.starts_with("HARNESS-ERROR") {
+                        agg.lock().unwrap().harness.push(line.trim().to_string());
                         continue;
                     }
                     if let Some(rest) = line.strip_prefix("R ") {
@@ -369,7 +375,9 @@ pub fn check(cfg: &CheckCfg) -> i32 {
     let (AggOut(mut agg), suspects) = run_batch(cfg, (0..cfg.runs).collect());
     let wall_runs = t0.elapsed().as_secs_f64();
 
-    let mut harness_errors: Vec<String> = vec![];
+    let mut harness_errors: Vec<String> = agg.harness.clone();
+    harness_errors.sort();
+    harness_errors.dedup();
     let mut reported: Vec<(Violation, String)> = vec![];
 
     // stalls and crashes: re-run alone with per-operation progress; only a reproduced one counts
@@ -547,7 +555,11 @@ pub fn check(cfg: &CheckCfg) -> i32 {
     std::fs::write(format!("{}/{}.json", edir, cfg.property), serde_json::to_string_pretty(&evidence).unwrap()).expect("write evidence");
 
     for (_, (line, n)) in &agg.kf_lines {
-        println!("{} (x{})", line, n);
+        if line.contains(&format!("property={} ", cfg.property)) {
+            println!("{} (x{})", line, n);
+        } else {
+            println!("NOTE: seen while checking {}: {} (x{})", cfg.property, line.replacen("KNOWN-FINDING:", "known finding", 1), n);
+        }
     }
     for n in &notes {
         println!("{}", n);
